@@ -76,7 +76,8 @@ def meaning_node(n) -> Dict[str, Any]:
             variables.update({"u": {"from_context": "ku"}, "w": {"from_context": "kw"}})
         rg = sw.get("rng") or {}
         if rg.get("on"):
-            r = {"lo": float(rg["lo"]), "hi": float(rg["hi"]), "steps": int(rg["steps"])}
+            bound = int if rg.get("intsp") else float
+            r = {"lo": bound(rg["lo"]), "hi": bound(rg["hi"]), "steps": int(rg["steps"])}
             if rg["expl"] or not rg["endp"]:
                 r["endpoint"] = bool(rg["endp"])
             if rg["expl"] or rg["log"]:
@@ -137,7 +138,8 @@ def render(cfg: List[Dict[str, Any]]) -> str:
                 vtxt = ", ".join(([extra[0], vtxt, extra[1]]) if sw.get("vorder") else ([vtxt] + extra))
             rg = sw.get("rng") or {}
             if rg.get("on"):
-                parts = [f"lo: {float(rg['lo']):.1f}", f"hi: {float(rg['hi']):.1f}", f"steps: {int(rg['steps'])}"]
+                parts = ([f"lo: {int(rg['lo'])}", f"hi: {int(rg['hi'])}"] if rg.get("intsp") else [f"lo: {float(rg['lo']):.1f}", f"hi: {float(rg['hi']):.1f}"]) \
+                    + [f"steps: {int(rg['steps'])}"]
                 if rg["expl"] or not rg["endp"]:
                     parts.append(f"endpoint: {'true' if rg['endp'] else 'false'}")
                 if rg["expl"] or rg["log"]:
